@@ -74,6 +74,17 @@ func (e *UserErr) Error() string {
 }
 func (e *UserErr) Unwrap() error { return e.Inner }
 
+// Extra makes *UserErr satisfy HErrIface (an interface embedding error).
+func (e *UserErr) Extra() {}
+
+// errTypeOf: the declared type of f's error result.
+func errTypeOf(f *Fn) reflect.Type {
+	if f.ErrT == "iface" {
+		return hostileType("HErrIface")
+	}
+	return errType
+}
+
 type PanicVal struct{ Fn, Exec int }
 
 // PanicErr is a panic value that is an error (PK 1-3), possibly wrapping a
@@ -341,12 +352,12 @@ func fnType(f *Fn) reflect.Type {
 	ep := f.errPos()
 	for i, r := range f.R {
 		if ep == i {
-			out = append(out, errType)
+			out = append(out, errTypeOf(f))
 		}
 		out = append(out, resultType(r))
 	}
 	if ep >= len(f.R) {
-		out = append(out, errType)
+		out = append(out, errTypeOf(f))
 	}
 	return reflect.FuncOf(in, out, variadic)
 }
@@ -529,9 +540,13 @@ func (rt *RT) call(f *Fn, args []reflect.Value) []reflect.Value {
 	var toks []int64
 	var out []reflect.Value
 	ep := f.errPos()
-	errVal := reflect.Zero(errType)
+	et := errTypeOf(f)
+	if f.Bank > 0 {
+		et = errType
+	}
+	errVal := reflect.Zero(et)
 	if outcome == FaultError {
-		errVal = reflect.New(errType).Elem()
+		errVal = reflect.New(et).Elem()
 		errVal.Set(reflect.ValueOf(rt.errOf(f.ID, exec)))
 	}
 	ft := rt.typeOfFn(f)
